@@ -83,6 +83,51 @@ func (r *c13Reader) ReadAt(p []byte, off int64) (int, error) {
 
 var c13LastPanic string
 
+type c13req struct {
+	body string
+	slot uint64
+}
+
+// the client's view of one epoch: getBlock for every slot, getTransaction for every signature
+func c13requests(l *loaded) (out []c13req) {
+	for _, bt := range l.built.Blocks {
+		out = append(out, c13req{fmt.Sprintf(`{"jsonrpc":"2.0","id":1,"method":"getBlock","params":[%d,{"encoding":"base64","maxSupportedTransactionVersion":0}]}`, bt.Spec.Slot), bt.Spec.Slot})
+		for _, tt := range bt.Txs {
+			out = append(out, c13req{fmt.Sprintf(`{"jsonrpc":"2.0","id":1,"method":"getTransaction","params":["%s",{"encoding":"base64","maxSupportedTransactionVersion":0}]}`, tt.Sig), bt.Spec.Slot})
+		}
+	}
+	return out
+}
+
+func c13classify(body string, p any, wantSlot uint64) string {
+	if p != nil {
+		c13LastPanic = fmt.Sprint(p)
+		return "panic"
+	}
+	var resp struct {
+		Result map[string]any `json:"result"`
+		Error  map[string]any `json:"error"`
+	}
+	if json.Unmarshal([]byte(body), &resp) != nil {
+		return "error"
+	}
+	if resp.Error != nil {
+		code, _ := resp.Error["code"].(float64)
+		msg, _ := resp.Error["message"].(string)
+		if int(code) == CodeNotFound || strings.Contains(strings.ToLower(msg), "not found") {
+			return "notfound"
+		}
+		return "error"
+	}
+	if resp.Result == nil {
+		return "notfound"
+	}
+	if s, ok := resp.Result["slot"].(float64); ok && uint64(s) != wantSlot {
+		return "different"
+	}
+	return "same"
+}
+
 type c13Target struct {
 	name string
 	path string
@@ -459,6 +504,18 @@ func TestVerifC13(t *testing.T) {
 	// the same cuts seen by a client: a server with this epoch and a second, intact epoch loaded; getTransaction for
 	// every signature and getBlock for every slot of this epoch through the JSON-RPC handler
 	l2 := vBuildAndLoad(t, c10spec(2, 1314), false, cache)
+	refBody := map[string]string{}
+	{
+		multi := NewMultiEpoch(&Options{EpochSearchConcurrency: 2})
+		multi.AddEpoch(l.epoch.Epoch(), l.epoch)
+		multi.AddEpoch(l2.epoch.Epoch(), l2.epoch)
+		h := newMultiEpochHandler(multi, nil)
+		for _, rq := range c13requests(l) {
+			if _, body, p := vCall(h, rq.body); p == nil && c13classify(body, nil, rq.slot) == "same" {
+				refBody[rq.body] = body
+			}
+		}
+	}
 	server := func(name string, set func(cfg *Config, p string)) c13Target {
 		return c13Target{name: "server/" + name, path: map[string]string{"sig-exists": l.paths.SignatureExists, "sig-to-cid": l.paths.SignatureToCid,
 			"slot-to-cid": l.paths.SlotToCid, "cid-to-offset-and-size": l.paths.CidToOffsetAndSize, "car": l.built.CarPath}[name],
@@ -479,45 +536,15 @@ func TestVerifC13(t *testing.T) {
 				return func() []string {
 					defer ep.Close()
 					var res []string
-					classify := func(body string, p any, wantSlot uint64) string {
-						if p != nil {
-							c13LastPanic = fmt.Sprint(p)
-							return "panic"
-						}
-						var resp struct {
-							Result map[string]any `json:"result"`
-							Error  map[string]any `json:"error"`
-						}
-						if json.Unmarshal([]byte(body), &resp) != nil {
-							return "error"
-						}
-						if resp.Error != nil {
-							code, _ := resp.Error["code"].(float64)
-							msg, _ := resp.Error["message"].(string)
-							if int(code) == CodeNotFound || strings.Contains(strings.ToLower(msg), "not found") {
-								return "notfound"
-							}
-							return "error"
-						}
-						if resp.Result == nil {
-							return "notfound"
-						}
-						if s, ok := resp.Result["slot"].(float64); ok && uint64(s) != wantSlot {
-							return "different"
-						}
-						return "same"
-					}
-					for _, bt := range l.built.Blocks {
-						_, body, p := vCall(h, fmt.Sprintf(`{"jsonrpc":"2.0","id":1,"method":"getBlock","params":[%d,{"encoding":"base64","maxSupportedTransactionVersion":0,"transactionDetails":"none","rewards":false}]}`, bt.Spec.Slot))
-						c := classify(body, p, bt.Spec.Slot)
-						if c == "same" {
-							// (the block response carries parentSlot, not slot)
+					for _, rq := range c13requests(l) {
+						_, body, p := vCall(h, rq.body)
+						c := c13classify(body, p, rq.slot)
+						// the whole answer must equal the one the intact files give (a field silently missing - e.g. the
+						// previous blockhash - is a different answer, not the same one)
+						if want, ok := refBody[rq.body]; c == "same" && ok && want != body {
+							c = "different"
 						}
 						res = append(res, c)
-						for _, tt := range bt.Txs {
-							_, body, p := vCall(h, fmt.Sprintf(`{"jsonrpc":"2.0","id":1,"method":"getTransaction","params":["%s",{"encoding":"base64","maxSupportedTransactionVersion":0}]}`, tt.Sig))
-							res = append(res, classify(body, p, bt.Spec.Slot))
-						}
 					}
 					return res
 				}, nil
@@ -529,6 +556,45 @@ func TestVerifC13(t *testing.T) {
 		server("slot-to-cid", func(cfg *Config, p string) { cfg.Indexes.SlotToCid.URI = URI(p) }),
 		server("cid-to-offset-and-size", func(cfg *Config, p string) { cfg.Indexes.CidToOffsetAndSize.URI = URI(p) }),
 		server("car", func(cfg *Config, p string) { cfg.Data.Car.URI = URI(p) }))
+	// every lookup pass is run twice on the same opened instance (a client retrying): an error in the first pass must not
+	// turn into "not found" / another value in the second; per key the worse of the two answers is reported
+	worse := func(a, b string) string {
+		rank := map[string]int{"same": 0, "error": 1, "notfound": 2, "different": 3, "panic": 4}
+		if rank[b] > rank[a] {
+			return b
+		}
+		return a
+	}
+	for ti := range targets {
+		tg := &targets[ti]
+		if strings.HasPrefix(tg.name, "gsfa/") || tg.name == "car" || tg.name == "car-remote" || strings.HasPrefix(tg.name, "server/") {
+			continue // (their lookup closures close what they opened after one pass)
+		}
+		wrap := func(open func() (func() []string, error)) (func() []string, error) {
+			lk, err := open()
+			if err != nil {
+				return nil, err
+			}
+			return func() []string {
+				r1 := lk()
+				r2 := lk()
+				for i := range r1 {
+					if i < len(r2) {
+						r1[i] = worse(r1[i], r2[i])
+					}
+				}
+				return r1
+			}, nil
+		}
+		if d := tg.disk; d != nil {
+			tg.disk = func(p string) (func() []string, error) { return wrap(func() (func() []string, error) { return d(p) }) }
+		}
+		if ra := tg.ra; ra != nil {
+			tg.ra = func(r io.ReaderAt, size int64) (func() []string, error) {
+				return wrap(func() (func() []string, error) { return ra(r, size) })
+			}
+		}
+	}
 	scratch := t.TempDir()
 	onlyFile, onlyCut := os.Getenv("VERIF_C13_FILE"), os.Getenv("VERIF_C13_CUT")
 	for _, tg := range targets {
